@@ -915,6 +915,88 @@ async def c10_yaml_options(w):
     return {"reproduced": out != want, "observed": {"widen-the-reload verdicts": out}, "expected": {"widen-the-reload verdicts": want}}
 
 
+async def c14_callback_edits_callbacks(w):
+    """Bounded stand-in (fixed histories on the real Function class): a done-callback of the exiting task changes that task's own
+    callback table while the callbacks are being run - removes one that has not run yet, re-adds one with new arguments, adds a
+    new one.  Every callback still registered when its turn comes runs exactly once with its CURRENT arguments, a removed one
+    does not run, the task's own outcome is kept and the task is forgotten afterwards."""
+    from custom_components.pyscript.function import Function
+    await boot()
+    failures, cases = [], 0
+
+    class Ctx:
+        def __init__(self):
+            self.logged = []
+
+        async def call_func(self, cb, name, *a, **k):
+            return await cb(*a, **k)
+
+        def log_exception(self, e):
+            self.logged.append(repr(e))
+
+        def get_global_ctx_name(self):
+            return "file.c14e"
+
+    for edit in ("remove-later", "remove-earlier", "readd-later", "add-new", "remove-self"):
+        cases += 1
+        ctx = Ctx()
+        calls = []
+        holder = {}
+
+        async def cb_a(*a, **k):
+            calls.append(("a", a))
+            t = holder["t"]
+            if edit == "remove-later":
+                Function.user_task_remove_done_callback(t, cb_b)
+            elif edit == "remove-earlier":
+                pass
+            elif edit == "readd-later":
+                Function.task_add_done_callback(t, ctx, cb_b, "new-args")
+            elif edit == "add-new":
+                Function.task_add_done_callback(t, ctx, cb_d, "d")
+            elif edit == "remove-self":
+                Function.user_task_remove_done_callback(t, cb_a)
+
+        async def cb_b(*a, **k):
+            calls.append(("b", a))
+            if edit == "remove-earlier":
+                Function.user_task_remove_done_callback(holder["t"], cb_a)
+
+        async def cb_c(*a, **k):
+            calls.append(("c", a))
+
+        async def cb_d(*a, **k):
+            calls.append(("d", a))
+
+        async def body():
+            await asyncio.sleep(0.01)
+            return 7
+        t = Function.create_task(body(), ast_ctx=ctx)
+        holder["t"] = t
+        await asyncio.sleep(0)
+        Function.task_add_done_callback(t, ctx, cb_a, "a")
+        Function.task_add_done_callback(t, ctx, cb_b, "b")
+        Function.task_add_done_callback(t, ctx, cb_c, "c")
+        await asyncio.wait([t], timeout=2)
+        try:
+            outcome = ("returned", t.result()) if t.done() else ("not-finished", None)
+        except BaseException as e:  # noqa
+            outcome = ("raised", repr(e))
+        want = {"remove-later": [("a", ("a",)), ("c", ("c",))],
+                "remove-earlier": [("a", ("a",)), ("b", ("b",)), ("c", ("c",))],
+                "readd-later": [("a", ("a",)), ("b", ("new-args",)), ("c", ("c",))],
+                "remove-self": [("a", ("a",)), ("b", ("b",)), ("c", ("c",))]}.get(edit)
+        ok_calls = (calls == want) if want is not None else (calls[:3] == [("a", ("a",)), ("b", ("b",)), ("c", ("c",))] and calls.count(("d", ("d",))) <= 1)
+        forgotten = t not in Function.task2cb and t not in Function.our_tasks
+        if outcome != ("returned", 7) or not ok_calls or not forgotten or ctx.logged:
+            failures.append({"signature": f"done-callback-edits-table:{edit}", "edit": edit, "task outcome": outcome, "calls": calls,
+                             "expected calls": want or "a, b, c once each (d at most once)", "forgotten": forgotten, "logged": ctx.logged})
+    await shutdown()
+    return {"unit": "Function.run_coro exit with done-callbacks that edit the task's own callback table", "method": "fixed histories on the real class",
+            "bound": "5 edits (remove a later / an earlier / itself, re-add a later one with new arguments, add a new one) x 3 callbacks",
+            "cases": cases, "failures": failures[:5], "reproduced": bool(failures)}
+
+
 async def c12_outgoing(w):
     """service.call / domain.service() with control-keyword look-alikes; data delivered must equal the given kwargs
     minus control keywords of the recognised type."""
